@@ -60,17 +60,22 @@ class Spelling:
     """How structured parameters are written. mode: 'canon' (README style), or a seeded random
     choice among all documented spellings, or a forced index per parameter kind."""
 
-    def __init__(self, mode='canon', seed=0, force=None):
+    def __init__(self, mode='canon', seed=0, force=None, rand_kinds=()):
         self.mode = mode
         self.rng = random.Random(seed)
         self.force = force or {}
+        self.rand_kinds = set(rand_kinds)
+        self.used = {}
 
     def pick(self, kind, options):
         if kind in self.force:
-            return options[self.force[kind] % len(options)]
-        if self.mode == 'canon':
-            return options[0]
-        return self.rng.choice(options)
+            r = options[self.force[kind] % len(options)]
+        elif self.mode == 'canon' and kind not in self.rand_kinds:
+            r = options[0]
+        else:
+            r = self.rng.choice(options)
+        self.used.setdefault(kind, set()).add(options.index(r))
+        return r
 
     def perm(self, kind, items):
         items = list(items)
